@@ -1,9 +1,14 @@
 TECHNIQUE = 'bounded symbolic execution of LLVM IR lowered to C: CBMC/SAT over a sequentialised step machine (symbolic round-robin scheduler, exact futex blocking, deadlock detection)'
-ASSUMPTIONS = ['moodycamel::ConcurrentQueue replaced by its contract model (shim/moodycamel)',
+ASSUMPTIONS = ['kernel instances (kernel_shutdown.cpp): the worker loop (threadLoopImpl parking part, waitOnThread, PerThreadData::stop/running) and '
+               'the shutdown prefix of ~ThreadPool/resizeLocked (stop all; wakeAll; join) are harness transcriptions over ghost containers; '
+               'the probe sequence of tryFindAndExecuteWork is one atomic ghost step; only detail::PoolWakeState / detail::EpochWaiter are real',
+               'moodycamel::ConcurrentQueue replaced by its contract model (shim/moodycamel)',
                'std::thread start/join modelled: the n-th started std::thread is model thread n running the real worker loop',
                'futex timeouts never fire (the property excludes the sleep backstop)',
                'detail::alignedMalloc/alignedFree replaced by their contract (checked under C44)']
-OUTSIDE = 'pools with more than 2 threads; more rounds / longer spins than stated; weak-memory reorderings (SC atomics)'
+OUTSIDE = ('pools with more than 2 threads; more rounds / longer spins than stated; weak-memory reorderings (SC atomics: in particular the '
+           'store-buffering shape stop()/sleepMask-load vs enterSleep/running()-load is not explored); regressions inside the transcribed '
+           'ThreadPool glue of the kernel instances (worker loop, submission paths): only PoolWakeState / EpochWaiter are the real lifted code there')
 KIT = {'engine': 'cbmc-seq', 'shims': ['moodycamel'], 'models': ['aligned_alloc'],
        'repo_sources': ['dispenso/thread_pool.cpp', 'dispenso/thread_pool_wake.cpp', 'dispenso/detail/per_thread_info.cpp'],
        'rt_defs': {'VF_HAVE_THREAD_MODEL': 1},
@@ -14,6 +19,41 @@ KIT = {'engine': 'cbmc-seq', 'shims': ['moodycamel'], 'models': ['aligned_alloc'
        'unwindset': {'_ZN8dispenso21ConcurrentObjectArenaINS_14MpmcRingBufferINS_12OnceFunctionELm16ELb1EEEmLm64EE7grow_byEm.4': 17, '_ZN8dispenso21ConcurrentObjectArenaINS_14MpmcRingBufferINS_12OnceFunctionELm4ELb1EEEmLm64EE7grow_byEm.4': 5},
        'spin_loops': True, 'unwind': 3, 'timeout': 900}
 INSTANCES = [
+    # full real worker loop: CBMC's symbolic execution does not finish (> 25 min); kept for reference, not part of any default tier
     dict(KIT, name='destroy_wake_n1', src='shutdown.cpp', defs={'VF_N': 1, 'VF_WAKE': 1, 'VF_TASKS': 0}, nthreads=2, steps=4,
+         tiers=['experimental'],
          bounds='pool of 1 worker (signalling wake), destructor at an arbitrary point of the worker loop; 4 rounds'),
+]
+
+# ---- protocol kernels (the documented fallback of DESIGN.md C09): real PoolWakeState/EpochWaiter, transcribed glue
+WAKE_FNS = ['_ZN8dispenso6detail13PoolWakeState15claimAndWakeOneEv', '_ZN8dispenso6detail13PoolWakeState15cascadeWakeSeedEi',
+            '_ZN8dispenso6detail13PoolWakeState9wakeRangeEi', '_ZN8dispenso6detail13PoolWakeState7wakeAllEv',
+            '_ZN8dispenso6detail13PoolWakeState11cascadeWakeEi']
+KERNEL = {'engine': 'cbmc-seq', 'src': 'kernel_shutdown.cpp', 'models': ['aligned_alloc'],
+          'repo_sources': ['dispenso/thread_pool_wake.cpp'],
+          # out of line = executed as one step: harness build and the producer-side REAL wake functions;
+          # the worker-side REAL functions (enterSleep, exitSleep, waitFor, current) are inlined (every atomic is a switch point)
+          'no_inline': ['_ZL7k_buildv', '_ZL10k_teardownv', '_ZL13k_cascadeWakei'] + WAKE_FNS,
+          'unwind_fn': dict({'_ZL7k_buildv': 6}, **{f: 5 for f in WAKE_FNS}),
+          'spin_loops': True, 'unwind': 3, 'timeout': 420, 'rt_defs': {'VF_SPURIOUS': 1}}
+LIVE = {0: (0, 0, 0), 1: (1, 0, 0), 2: (1, 0, 1), 3: (0, 1, 0), 4: (1, 0, 0)}
+
+
+def kernel(name, hist, n, g, steps, start, bounds, tiers=('quick', 'thorough'), **kw):
+    lc, lr, ls = LIVE[hist]
+    defs = {'VF_HIST': hist, 'VF_N': n, 'VF_G': g, 'VF_START': start,
+            'VF_LIVE_CENTRAL': lc, 'VF_LIVE_RING': lr, 'VF_LIVE_STEAL': ls}
+    d = dict(KERNEL, name=name, defs=defs, nthreads=n + 1, steps=steps, tiers=list(tiers),
+             bounds='protocol kernel: %d workers, wake group size %d, %s; <= 1 spurious futex return per worker; %d scheduler rounds'
+                    % (n, g, bounds, steps))
+    d.update(kw)
+    return d
+
+
+INSTANCES += [
+    kernel('kernel_stop_n1', 0, 1, 1, 3, 2, 'worker at the top of its loop or after enterSleep (symbolic); stop + wakeAll at any point'),
+    kernel('kernel_stop_n2', 0, 2, 2, 3, 2, 'each worker at the top of its loop or after enterSleep (symbolic); stop + wakeAll at any point',
+           tiers=('thorough',)),
+    kernel('kernel_stop_after_schedule_n2', 1, 2, 2, 3, 1,
+           'both workers parked; one schedule() (claimAndWakeOne) by the producer, then stop + wakeAll', tiers=('thorough',)),
 ]
